@@ -198,7 +198,8 @@ class SrvAdapter:
         self.bgexc = []
         self.wait_script = None
         self.call_results = []
-        sio.eio.create_event = lambda *a, **k: HarnessEvent(self)
+        if not self.is_async:
+            sio.eio.create_event = lambda *a, **k: HarnessEvent(self)
         if not self.is_async:
             def sbt(target, *a, **k):
                 def guarded(*a, **k):
@@ -383,6 +384,9 @@ class SrvAdapter:
         self._track_owned()
         s = self.socks[t]
         self._run(s.close(wait=False, abort=True, reason=reason))
+        self._after_lose(t)
+
+    def _after_lose(self, t):
         # what engine.io's request handling does when it notices the end
         eid = self.eid[t]
         if eid in self.sio.eio.sockets and self.sio.eio.sockets[eid].closed:
@@ -601,6 +605,8 @@ class SrvAdapter:
         def script():
             for st in steps:
                 sub = dict(st)
+                if sub['t'] in me.closed or sub['t'] not in me.socks:
+                    continue
                 if sub['act'] in ('RxAck',):
                     for f in me._frames(sub):
                         me._feed(sub['t'], f)
@@ -625,16 +631,33 @@ class SrvAdapter:
 
     def _do_call_async(self, a, script):
         sio = self.sio
+        steps = a['during']
+        me = self
 
         async def _w():
-            async def world():
-                # runs once call() is suspended in its wait
+            call = asyncio.ensure_future(
+                sio.call(a['ev'], val('v1'), to=me._real_sid(a['sid']),
+                         namespace=a['ns'], timeout=1))
+            # the world moves only while call() is blocked in its wait
+            for _ in range(5):
                 await asyncio.sleep(0)
-                res = script()
-            # asyncio variant: deliver through tasks, timeouts via wait_for
-            # with a tiny real timeout only when nothing is delivered
-            raise NotImplementedError
-        raise NotImplementedError
+            if not call.done():
+                for st in steps:
+                    if st['t'] in me.closed or st['t'] not in me.socks:
+                        continue
+                    if st['act'] == 'RxAck':
+                        for f in me._frames(st):
+                            await me.socks[st['t']].receive(
+                                eio_packet.Packet(eio_packet.MESSAGE, f))
+                    elif st['act'] == 'EioLost':
+                        me._track_owned()
+                        await me.socks[st['t']].close(
+                            wait=False, abort=True, reason=st['reason'])
+                        me._after_lose(st['t'])
+            return await call     # virtual time: an unanswered call times out
+        self.wait_script = None
+        r = self._run(_w())
+        return ['ok'] + self._shape(r)
 
     # ---------------------------------------------------------- observation
     def _drain(self):
@@ -748,6 +771,9 @@ class SrvAdapter:
             n = self._name(sid) if sid in self.names else self._room_tok(sid)
             out = {str(k): self._cb_tok(v)
                    for k, v in d.items() if callable(v)}
+            # call()'s internal callback is named after the id it waits for
+            out = {k: ('call:%s:%s' % (n, k) if v == 'call' else v)
+                   for k, v in out.items()}
             cb[n] = {'next': self._cb_next(sid, n, d), 'out': out}
         binbuf = {}
         for eid, p in sio._binary_packet.items():
